@@ -9,7 +9,7 @@ VERIF = os.path.dirname(os.path.dirname(os.path.abspath(__file__)))
 
 def main():
     old = {}
-    for fn in ('old_checks.log', 'old_checks_round2.log', 'old_checks_round3.log', 'old_checks_round4.log', 'old_checks_round5.log', 'old_checks_round6.log', 'old_checks_round7.log'):
+    for fn in ('old_checks.log', 'old_checks_round2.log', 'old_checks_round3.log', 'old_checks_round4.log', 'old_checks_round5.log', 'old_checks_round6.log', 'old_checks_round7.log', 'old_checks_round8.log'):
         p = os.path.join(VERIF, 'seeded', fn)
         if not os.path.exists(p):
             continue
@@ -26,7 +26,7 @@ def main():
         meta = json.load(open(mp))
         need = ' '.join(meta.get('needs_to_manifest', '').split())
         need = re.sub(r'\|', '/', need)[:230]
-        det = (meta.get('detection') or {}).get('quick') or (meta.get('detection_on_copy') or {}).get('quick') or {}
+        det = (meta.get('detection_latest') or {}).get('results') or (meta.get('detection') or {}).get('quick') or (meta.get('detection_on_copy') or {}).get('quick') or {}
         r = det.get(meta['property'], {})
         cur = 'caught' if r.get('exit') == 1 else ('MISSED' if r else 'not run')
         o = old.get(name)
